@@ -493,6 +493,39 @@ ADDED2 = {
 }
 
 
+ADDED3 = {
+    "C01": "Arguments named like the helpers' own parameters (fn, executor), "
+           "floats that need all 17 digits.",
+    "C03": "Results carrying a scalar coordinate named like a swept argument "
+           "(refused, or labelled with the values swept).",
+    "C04": "Constants given as pairs or as a one-shot iterator.",
+    "C05": "Lazily loading harvesters on a new and on an existing file, the "
+           "harvester copied / pickled between steps, labels of two "
+           "dimensions dropped by one call, an existing dimension added "
+           "again, the caller writing to the dataset it added.",
+    "C06": "Reaped by a new session through the farmer built again.",
+    "C07": "The sown crop opened again through its farmer, crops sown with "
+           "save_fn=False.",
+    "C08": "The function replaced on a live crop and re-sown, crops sown from "
+           "cases, a refused re-sow, a function returning None, "
+           "KeyboardInterrupt inside a batch.",
+    "C09": "Crops of a Runner, handles made before the crop was sown (by "
+           "name, or with the function).",
+    "C11": "Copies go through the traced files block by block (a temporary "
+           "in $TMPDIR on another device), a waiting reap with "
+           "allow_incomplete.",
+    "C12": "A grown, unreaped crop whose name begins like the one reaped.",
+    "C14": "An earlier save with writer options of its own, a sibling dataset "
+           "whose name begins alike survives delete_ds, a name with glob "
+           "characters.",
+    "C15": "A generator listed before a list of choices.",
+    "C16": "Scheduler directives after the first command count as ignored.",
+    "C17": "Float grid labels (titles read back as the coordinate), a label "
+           "occurring twice on z, cells centred on their coordinates.",
+    "C18": "Aggregation without any mapped dimension, infinite values.",
+}
+
+
 def main():
     props = [json.loads(l) for l in open(os.path.join(VERIF, "properties.jsonl"))]
     checks, na = [], []
@@ -506,6 +539,8 @@ def main():
                 text = text + " " + ADDED[pid]
             if pid in ADDED2:
                 text = text + " Later: " + ADDED2[pid]
+            if pid in ADDED3:
+                text = text + " Last waves: " + ADDED3[pid]
             checks.append({
                 "property_id": pid,
                 "quick_cmd": "%s -m xv check %s --tier quick" % (PY, pid),
